@@ -174,7 +174,9 @@ class Exec:
         if re.match(r"^_\d+$", place):
             if place in env:
                 return env[place]
-            return self.havoc(self.locs.get(place))
+            v = self.havoc(self.locs.get(place))
+            env[place] = v              # the same unassigned local read twice on a path is the same value
+            return v
         if place.startswith("(") and match_paren(place, 0) == len(place) - 1:
             inner = place[1:-1].strip()
             if inner.startswith("*"):
@@ -210,11 +212,46 @@ class Exec:
                 return vals[idx] if idx < len(vals) else self.opq()
             if base[0] == "opaque":
                 k = (base[1], f".{idx}")
+                st = env.get("$stores")
+                if st and k in st:
+                    return st[k]
                 if k not in self.proj:
                     self.proj[k] = self.havoc(fty)
                 return self.proj[k]
             return self.havoc(fty)
         return self.opq()
+
+    def store(self, env, lhs, val):
+        """`(P.i: T) = v` through an opaque struct / reference: remembered in a per-path overlay"""
+        lhs = lhs.strip()
+        if not (lhs.startswith("(") and match_paren(lhs, 0) == len(lhs) - 1):
+            return
+        inner = lhs[1:-1].strip()
+        if inner.startswith("*"):
+            return
+        if inner.startswith("("):
+            j = match_paren(inner, 0)
+            base_txt, rest = inner[: j + 1], inner[j + 1:]
+        else:
+            m = re.match(r"^(_\d+)(.*)$", inner, re.S)
+            if not m:
+                return
+            base_txt, rest = m.group(1), m.group(2)
+        m = re.match(r"^\.(\d+): (.*)$", rest, re.S)
+        if not m or re.match(r"^\((.+) as (\w+)\)$", base_txt, re.S):
+            return
+        base = self.place(env, base_txt)
+        if base[0] == "opaque":
+            st = dict(env.get("$stores") or {})
+            st[(base[1], f".{int(m.group(1))}")] = val
+            env["$stores"] = st
+        elif base[0] == "struct" and re.match(r"^_\d+$", base_txt):
+            keys = list(base[2].keys())
+            i = int(m.group(1))
+            if i < len(keys):
+                f2 = dict(base[2])
+                f2[keys[i]] = val
+                env[base_txt] = ("struct", base[1], f2)
 
     def rvalue(self, env, dst, rv):
         rv = rv.strip()
@@ -312,9 +349,20 @@ class Exec:
         self._go("bb0", env, [], (), {})
         return self.paths
 
-    def _go(self, bb, env, pc, events, visits):
+    def run_from(self, bb, stop_blocks=(), init_env=None):
+        """symbolic execution of a region: starts in block `bb` with every local unknown (havoced on first read) and
+        ends a path when it returns or enters one of `stop_blocks` (outcome "stop:<bb>")"""
+        self.stop_blocks = set(stop_blocks)
+        self.arg_env = dict(init_env or {})
+        self._go(bb, dict(init_env or {}), [], (), {}, first=True)
+        return self.paths
+
+    def _go(self, bb, env, pc, events, visits, first=False):
         if len(self.paths) > self.max_paths:
             raise Untranslatable("too many paths")
+        if not first and bb in getattr(self, "stop_blocks", ()):
+            self.paths.append(Path(pc, events, "stop:" + bb, None, env))
+            return
         v = visits.get(bb, 0) + 1
         if v > self.unroll + 1:
             self.cut += 1
@@ -402,7 +450,10 @@ class Exec:
             if m:
                 env[m.group(1)] = self.rvalue(env, m.group(1), m.group(2))
                 continue
-            continue    # stores through projections etc.: ignored (reads of unknown places are havoced)
+            m = re.match(r"^(\(.*\)) = (.*)$", st)
+            if m and "->" not in st:
+                self.store(env, m.group(1), self.rvalue(env, "", m.group(2)))
+            continue    # other stores (derefs, indices): ignored (reads of unknown places are havoced)
         raise Untranslatable(f"block {bb} has no terminator")
 
 
